@@ -136,10 +136,14 @@ pub const DF_NOT_IN_SIG: &str = "datafusion-inlist-simplifier-keeps-rows-where-f
 /// rows, the filter is NULL (not FALSE) for each of them, and DataFusion's own complete SQL pipeline
 /// returns exactly the same rows as Lance.
 pub async fn quirk_sig(got: &BTreeSet<i64>, exp: &BTreeSet<i64>, pred: &Pred, sql: &str, m: &Model, df: &DfRef) -> Option<&'static str> {
-    if !pred.has_mergeable_inlists_same_column() || !exp.is_subset(got) || got == exp {
+    // merged in-lists lose the NULL-ness of the column: every deviating row is NULL in a column that
+    // has two mergeable equality / IN leaves, and DataFusion's complete SQL pipeline returns exactly
+    // what Lance returned
+    let cols = pred.mergeable_inlist_columns(false);
+    if cols.is_empty() || got == exp {
         return None;
     }
-    if !got.difference(exp).all(|id| m.rows.get(id).map(|r| eval(pred, &m.cols, r).is_none()).unwrap_or(false)) {
+    if !got.symmetric_difference(exp).all(|id| m.rows.get(id).map(|r| cols.iter().any(|c| r[*c].is_null())).unwrap_or(false)) {
         return None;
     }
     match df.ids_where_full_sql(sql).await {
@@ -157,7 +161,7 @@ pub const COERCE_SIG: &str = "lance-simplifies-before-type-coercion-inlist-merge
 /// the SQL literal's default type, and DataFusion's complete SQL pipeline (which coerces first)
 /// returns the expected rows.
 pub async fn coercion_sig(got: &BTreeSet<i64>, exp: &BTreeSet<i64>, pred: &Pred, sql: &str, m: &Model, df: &DfRef) -> Option<&'static str> {
-    if got == exp || !pred.has_mergeable_inlists_same_column() {
+    if got == exp || pred.mergeable_inlist_columns(false).is_empty() {
         return None;
     }
     let mut cols = BTreeSet::new();
